@@ -27,11 +27,52 @@ pub fn invocations(events: &[TraceEvent]) -> Result<(Vec<Inv>, Vec<(bool, usize)
     let mut invs: Vec<Inv> = vec![];
     let mut stack: Vec<usize> = vec![];
     let mut order: Vec<(bool, usize)> = vec![];
+    // Polarity and atomicity are recomputed here from the nesting of lookahead()/atomic() calls
+    // (the "#&", "#!", "#@", "#$", "#~" control events) rather than read from the parser state, so
+    // that a wrong polarity or atomicity *in the implementation* is not trusted by the oracle:
+    // a positive predicate keeps the polarity (None becomes Positive), a negative one flips it.
+    let mut look: Vec<Lookahead> = vec![Lookahead::None];
+    let mut atom: Vec<Atomicity> = vec![Atomicity::NonAtomic];
     for e in events {
+        if let Some(label) = e.rule.strip_prefix('#') {
+            match (label, e.enter) {
+                ("&", true) => {
+                    let cur = *look.last().unwrap();
+                    look.push(match cur {
+                        Lookahead::None | Lookahead::Positive => Lookahead::Positive,
+                        Lookahead::Negative => Lookahead::Negative,
+                    });
+                }
+                ("!", true) => {
+                    let cur = *look.last().unwrap();
+                    look.push(match cur {
+                        Lookahead::None | Lookahead::Positive => Lookahead::Negative,
+                        Lookahead::Negative => Lookahead::Positive,
+                    });
+                }
+                ("&", false) | ("!", false) => {
+                    if look.len() < 2 {
+                        return Err("unbalanced lookahead events".into());
+                    }
+                    look.pop();
+                }
+                ("@", true) => atom.push(Atomicity::Atomic),
+                ("$", true) => atom.push(Atomicity::CompoundAtomic),
+                ("~", true) => atom.push(Atomicity::NonAtomic),
+                (_, false) => {
+                    if atom.len() < 2 {
+                        return Err("unbalanced atomic events".into());
+                    }
+                    atom.pop();
+                }
+                _ => return Err(format!("unknown control event {label}")),
+            }
+            continue;
+        }
         let rule = e.rule.trim_matches('"').to_string();
         if e.enter {
             let id = invs.len();
-            invs.push(Inv { rule, pos: e.pos, look: e.lookahead, atom: e.atomicity, ok: false, depth: stack.len() });
+            invs.push(Inv { rule, pos: e.pos, look: *look.last().unwrap(), atom: *atom.last().unwrap(), ok: false, depth: stack.len() });
             stack.push(id);
             order.push((true, id));
         } else {
@@ -228,7 +269,7 @@ pub fn replay(case: &Value) -> Result<(), Fail> {
 
 pub const DEF: CheckDef = CheckDef {
     id: "C08",
-    rule: "C01's grammar generator x every rule x 10 inputs biased to edited derivations and random strings, restricted to parses the reference evaluator says fail; VM back-end. Observation: the cfg trace hook records every rule() invocation of the real run (start position, look-ahead polarity, atomicity, outcome). Oracle, an executable reading of the statement over that forest: reportable attempt = invocation outside an atomic interior that failed with polarity != negative (expected) or matched under negative polarity (unexpected); F = furthest start position of a reportable attempt (0 if none). Required unconditionally: reported position = F; every listed rule has a matching reportable attempt at F; both lists strictly sorted. Required as exact equality of both lists unless a rule that matched under negation itself had rules tried inside it at F (the replacement sentence speaks about failing rules; there only producibility is required): the lists equal the result of reporting each failing rule in place of the rules tried inside it at F unless exactly one was tried (counted by attempts). Non-trivial = F > 0 with >= 2 reportable attempts at F, or a negative attempt at F; distinct = distinct (grammar, rule, input).",
+    rule: "C01's grammar generator x every rule x 10 inputs biased to edited derivations and random strings, restricted to parses the reference evaluator says fail; VM back-end. Observation: the cfg trace hook records every rule(), lookahead() and atomic() call of the real run; look-ahead polarity and atomicity of each rule invocation are recomputed by the harness from that nesting (not read from the parser state). Oracle, an executable reading of the statement over that forest: reportable attempt = invocation outside an atomic interior that failed with polarity != negative (expected) or matched under negative polarity (unexpected); F = furthest start position of a reportable attempt (0 if none). Required unconditionally: reported position = F; every listed rule has a matching reportable attempt at F; both lists strictly sorted. Required as exact equality of both lists unless a rule that matched under negation itself had rules tried inside it at F (the replacement sentence speaks about failing rules; there only producibility is required): the lists equal the result of reporting each failing rule in place of the rules tried inside it at F unless exactly one was tried (counted by attempts). Non-trivial = F > 0 with >= 2 reportable attempts at F, or a negative attempt at F; distinct = distinct (grammar, rule, input).",
     assumptions: &["silent rules never reach rule() and so are never reportable; the generated back-end is compared with the VM by C02, which makes this result carry over"],
     floor: |t| t.pick(50_000, 500_000),
     shards: |_| 16,
